@@ -424,6 +424,20 @@ def check_branch_end(case, acc):
     return check_program(chains.build_branch_end(case['spec']), case, acc, case['bound'])
 
 
+def check_loop_tail(case, acc):
+    return check_program(chains.build_loop_tail(case['spec']), case, acc, case['bound'])
+
+
+def fam_loop_tail(arg):
+    acc = Acc('loop_tails')
+    for case in arg:
+        acc.cases += 1
+        check_loop_tail(case, acc)
+    if arg:
+        acc.sample(dict(arg[0], source=ast.source(chains.build_loop_tail(arg[0]['spec']))))
+    return acc.result()
+
+
 def fam_branch_end(arg):
     acc = Acc('branch_end')
     for case in arg:
@@ -647,6 +661,55 @@ def fam_empty(arg):
     return acc.result()
 
 
+# ---------------------------------------------------------------- every argument expression of a call is evaluated, once, left to right
+
+CA_PARAMS = ((), ('p1',), ('p1', 'p2'))
+CA_PLACES = ('statement', 'argument', 'operand', 'condition')
+
+
+def call_arg_cases():
+    return [{'params': p, 'rest': r, 'nargs': n, 'place': pl, 'bound': 1}
+            for p in range(len(CA_PARAMS)) for r in ((False, True) if p else (False,)) for n in range(0, 5) for pl in CA_PLACES]
+
+
+def build_call_args(case):
+    log = lambda e: ('expr', ('call', 'systemLog', [e]))  # noqa: E731
+    params = list(CA_PARAMS[case['params']])
+    note = ('func', 'nt', ['tx'], False, [log(('bin', '+', ('str', 'arg '), ('var', 'tx'))), ('return', ('var', 'tx'))])
+    body = [log(('str', 'in ff'))]
+    for p in params[:-1] if case['rest'] else params:
+        body.append(log(('bin', '+', ('str', p + '='), ('var', p))))
+    if case['rest']:
+        body.append(log(('bin', '+', ('str', 'rest#'), ('call', 'arrayLength', [('var', params[-1])]))))
+    body.append(('return', ('var', params[0]) if params and not (case['rest'] and len(params) == 1) else ('str', 'none')))
+    ff = ('func', 'ff', params, bool(case['rest']), body)
+    call = ('call', 'ff', [('call', 'nt', [('str', f'a{k}')]) for k in range(case['nargs'])])
+    place = case['place']
+    if place == 'statement':
+        use = [('expr', call)]
+    elif place == 'argument':
+        use = [('assign', 'rr', ('call', 'nt', [call]))]
+    elif place == 'operand':
+        use = [('assign', 'rr', ('bin', '+', ('call', 'nt', [('str', 'left')]), call))]
+    else:
+        use = [('if', [(call, [log(('str', 'then'))])], [log(('str', 'else'))])]
+    return [note, ff] + use + [log(('str', 'end'))]
+
+
+def check_call_args(case, acc):
+    return check_program(build_call_args(case), case, acc, case['bound'])
+
+
+def fam_call_args(arg):
+    acc = Acc('call_args')
+    for case in arg:
+        acc.cases += 1
+        check_call_args(case, acc)
+    if arg:
+        acc.sample(dict(arg[-1], source=ast.source(build_call_args(arg[-1]))))
+    return acc.result()
+
+
 def families(tier):
     load_impl()
     from ..engine.shard import split  # pylint: disable=import-outside-toplevel
@@ -657,7 +720,11 @@ def families(tier):
     be = [{'spec': sp, 'bound': 2 if tier == 'quick' else 3} for sp in chains.branch_end_specs()]
     sc = sibling_cases(tier)
     fc = func_cases(tier)
-    return [chain_family(tier), small_family(tier), truth_family(tier),
+    lt = [{'spec': sp, 'bound': 2 if tier == 'quick' else 3} for sp in chains.loop_tail_specs()]
+    cac = call_arg_cases()
+    return [Family('loop_tails', fam_loop_tail, split(lt, 16), "the outer loop's own continue / break (guarded, or bare at the end) placed before and / or after a COMPLETE nested loop of its body: 2 outer loops x 6 inner shapes x 2 exits x 4 placements x 2 scopes", expected=len(lt)),
+            Family('call_args', fam_call_args, split(cac, 8), 'a script function with 0..2 parameters (optionally a "..." parameter) called with 0..4 arguments, each argument a logging call: every argument expression is evaluated exactly once, left to right, also the surplus ones; as a statement, as an argument, as a right operand and as a condition', expected=len(cac)),
+            chain_family(tier), small_family(tier), truth_family(tier),
             Family('branch_end', fam_branch_end, split(be, 48), 'an if chain inside a loop where every branch independently ends in nothing / break / continue / return; 3 loop kinds x 4 chain shapes x endings x 2 scopes x 3 surroundings', expected=len(be)),
             Family('keyword_names', fam_kw, split(kwc, 9), 'function and variable names that START with a keyword (returnItems, ifCount, forItems, ...) used as call statement, assignment target, in expressions, conditions and loop headers', expected=len(kwc)),
             Family('empty_bodies', fam_empty, [[c] for c in emc], 'loops and ifs with empty and comment-only bodies (a back edge directly after the loop label)', expected=len(emc)),
@@ -667,7 +734,7 @@ def families(tier):
             Family('funcs', fam_funcs, split(fc, 48), 'three functions: 5 body kinds each x call graph {chain, diamond, bounded recursion} x definition site {top level, inside an if block, inside a loop body}', expected=len(fc))]
 
 
-_CHECKS = {'redefinition': check_redef, 'keyword_names': check_kw, 'empty_bodies': check_empty, 'recursion': check_rec, 'chain': check_chain, 'small': check_small, 'truth': check_truth, 'siblings': check_siblings, 'funcs': check_funcs, 'branch_end': check_branch_end}
+_CHECKS = {'loop_tails': check_loop_tail, 'call_args': check_call_args, 'redefinition': check_redef, 'keyword_names': check_kw, 'empty_bodies': check_empty, 'recursion': check_rec, 'chain': check_chain, 'small': check_small, 'truth': check_truth, 'siblings': check_siblings, 'funcs': check_funcs, 'branch_end': check_branch_end}
 
 
 def replay(family, case):
